@@ -57,7 +57,8 @@ pub trait FeeEstimator {}
 pub struct LowerBoundedFeeEstimator<F: FeeEstimator>(pub F);
 pub struct FeeStats { pub counterparty_balance_msat: u64, pub dust_exposure_msat: u64 }
 pub struct FeeChannelStats { pub commitment_stats: FeeStats }
-pub struct FeeFundingScope { pub holder_selected_channel_reserve_satoshis: u64, pub ct: ChannelTypeFeatures }
+// both reserves of the real FundingScope (a change that subtracts the other side's reserve is verified, not rejected)
+pub struct FeeFundingScope { pub holder_selected_channel_reserve_satoshis: u64, pub counterparty_selected_channel_reserve_satoshis: Option<u64>, pub ct: ChannelTypeFeatures }
 impl FeeFundingScope { #[verifier::external_body] pub fn get_channel_type(&self) -> (r: &ChannelTypeFeatures) { unimplemented!() } }
 pub enum ChannelError { Close(u8) }
 impl ChannelError { #[verifier::external_body] pub fn close(_m: u8) -> (r: ChannelError) { unimplemented!() } }
